@@ -794,9 +794,19 @@ def read_cache_entry(
     else:
         # Versions < 4: regular name reading
         name = f.read(flags & FLAG_NAMEMASK)
+        if flags & FLAG_NAMEMASK == FLAG_NAMEMASK:
+            # Saturated length field: the name continues up to its NUL
+            # terminator, which is the first byte of the padding
+            while True:
+                byte = f.read(1)
+                if not byte or byte == b"\0":
+                    break
+                name += byte
+            real_size = (62 + (2 if flags & FLAG_EXTENDED else 0) + len(name) + 8) & ~7
+            f.read((beginoffset + real_size) - f.tell())
 
     # Padding:
-    if version < 4:
+    if version < 4 and flags & FLAG_NAMEMASK != FLAG_NAMEMASK:
         real_size = (f.tell() - beginoffset + 8) & ~7
         f.read((beginoffset + real_size) - f.tell())
 
@@ -836,7 +846,9 @@ def write_cache_entry(
         # Version 4: use compression but set name_len to actual filename length
         # This matches how C Git implements index v4 flags
         compressed_path = _compress_path(entry.name, previous_path)
-    flags = len(entry.name) | (entry.flags & ~FLAG_NAMEMASK)
+    # The 12-bit name length saturates for names of 4095 bytes and more
+    # (readers then rely on the NUL terminator), as in git
+    flags = min(len(entry.name), FLAG_NAMEMASK) | (entry.flags & ~FLAG_NAMEMASK)
 
     if entry.extended_flags:
         flags |= FLAG_EXTENDED
